@@ -131,7 +131,8 @@ func (g c04Graph) build() *gen.World {
 			case t <= g.n:
 				child = map[string]interface{}{"$ref": ref(doc, t-1)}
 			case t == g.n+1:
-				child = map[string]interface{}{"$ref": "#/definitions/nowhere"}
+				// dangling: an unknown name, or a keyword the target does not carry (a typed root then yields nothing, without a lookup error)
+				child = map[string]interface{}{"$ref": []string{"#/definitions/nowhere", "#/definitions/d0/externalDocs", "#/definitions/d0/xml", "#/info/contact"}[(g.posSeed+k)%4]}
 			case t == g.n+2:
 				child = map[string]interface{}{"$ref": gen.RefText(doc, gen.RootURL, []string{"illtyped", "v"}, map[bool]string{true: "fragment", false: "abs"}[doc == gen.RootURL])}
 			default:
